@@ -369,6 +369,20 @@ let () =
         | None ->
           let c = (same_operand_hole_meets_sibling_interior g, same_operand_areal_members_overlap g) in
           class_memo := (g, c) :: !class_memo; c in
+      (* classification of a failed judgement of result [rs] of (o, ga, gb) with verdict [v] (known findings F20 / F20b) *)
+      let classify (o, ga, gb) (v : verdict) (rs : q geomT) : string * string =
+        let (ha, xa) = classes_of ga and (hb, xb) = classes_of gb in
+        let in_hole p = (ha && in_covered_hole ga p) || (hb && in_covered_hole gb p) in
+        let dropped wi =
+          let p = wpt wi in
+          ((xa && in_areal ga p) || (xb && in_areal gb p))
+          && (wdim wi <> D2
+              || List.exists (fun (ya, yb) -> (ya || yb) && inG rs p = raw_absent o ga gb ya yb p)
+                [ (xa, false); (false, xb); (xa, xb) ]) in
+        if v.v_agree then ((if ha || hb then f20_class else if xa || xb then f20b_class else "none"), "other")
+        else if (ha || hb) && List.for_all (fun wi -> in_hole (wpt wi)) v.v_bad then (f20_class, "hole_not_filled")
+        else if (xa || xb) && List.for_all dropped v.v_bad then (f20b_class, "covered_face_dropped")
+        else ((if ha || hb then f20_class else if xa || xb then f20b_class else "none"), "other") in
       let primary_failed = ref false in
       if not light then List.iter (fun (n, e, x, (o, ga, gb)) ->
           match get n with
@@ -386,19 +400,7 @@ let () =
               let comp =
                 if not v.v_agree then "membership" else if not v.v_area then "area"
                 else if not v.v_points then "isolated_points" else if not v.v_nonred then "redundant_part" else "shape" in
-              let (ha, xa) = classes_of ga and (hb, xb) = classes_of gb in
-              let in_hole p = (ha && in_covered_hole ga p) || (hb && in_covered_hole gb p) in
-              let dropped wi =
-                let p = wpt wi in
-                ((xa && in_areal ga p) || (xb && in_areal gb p))
-                && (wdim wi <> D2
-                    || List.exists (fun (ya, yb) -> (ya || yb) && inG rs p = raw_absent o ga gb ya yb p)
-                      [ (xa, false); (false, xb); (xa, xb) ]) in
-              let klass, symptom =
-                if v.v_agree then ((if ha || hb then f20_class else if xa || xb then f20b_class else "none"), "other")
-                else if (ha || hb) && List.for_all (fun wi -> in_hole (wpt wi)) v.v_bad then (f20_class, "hole_not_filled")
-                else if (xa || xb) && List.for_all dropped v.v_bad then (f20b_class, "covered_face_dropped")
-                else ((if ha || hb then f20_class else if xa || xb then f20b_class else "none"), "other") in
+              let klass, symptom = classify (o, ga, gb) v rs in
               count ("fail_class_" ^ klass ^ "_" ^ symptom);
               let first = match v.v_bad with
                 | wi :: _ -> Printf.sprintf " first=%s expected=%s got=%s n_bad=%d" (pts (wpt wi)) (bstr (e wi)) (bstr (inG rs (wpt wi))) (List.length v.v_bad)
@@ -421,7 +423,23 @@ let () =
               match (match oname, a, b with
                   | "OV", Some a, Some b -> Some (a, b) | "OVA", Some a, _ -> Some (a, empty)
                   | "OVB", _, Some b -> Some (b, empty) | "OVM", _, _ -> Some (coll, empty) | _ -> None) with
-              | Some (ga, gb) -> Renode_check.check ~failc ~oname ~a:ga ~b:gb ~tol2 ~vxy:o.vxy ~eseq:o.eseq
+              | Some (ga, gb) ->
+                (* the composed exact model (coq/Model/OverlayPipeline.v) against the real overlay and the results
+                   extracted from it (ocaml/c01/pipeline_check.ml) *)
+                let engine op = kind = "P" && (match a, b with
+                    | Some a, Some b -> dispatch op (is_empty a) (is_empty b) = DEngine | _ -> false) in
+                let names = match oname with
+                  | "OV" -> List.filter (fun (_, op) -> engine op) [ ("U", OpUnion); ("I", OpInter); ("D", OpDiff); ("S", OpSym) ]
+                  | "OVA" -> [ ("UA", OpUnion) ] | "OVB" -> [ ("UB", OpUnion) ] | "OVM" -> [ ("M", OpUnion) ] | _ -> [] in
+                let results = List.filter_map (fun (rn, op) ->
+                    match List.find_opt (fun (n, _, _, _) -> n = rn) primaries with
+                    | None -> None
+                    | Some (_, e, x, key) ->
+                      Some { Pipeline_check.rname = rn; rop = op;
+                             rgo = (match get rn with Some (Good (_, rq, rs, _, _)) -> Some (rq, rs) | _ -> None);
+                             classify = (fun v rm _ -> classify key v rm); expected = e; rawset = x }) names in
+                Pipeline_check.check ~failc ~oname ~a:ga ~b:gb ~tol2 ~cx:o.cx ~vxy:o.vxy ~eseq:o.eseq ~results;
+                Renode_check.check ~failc ~oname ~a:ga ~b:gb ~tol2 ~vxy:o.vxy ~eseq:o.eseq
               | None -> ()
             end;
             (* dcel_re_noding.go: nodes that are close to each other are snapped together - no two
